@@ -16,6 +16,9 @@ pub struct FwCase {
     pub calls: Vec<(u64, Vec<TriggerEvent>)>,
     pub script: Vec<u64>,
     pub seed: u64,
+    /// run on the crate's default clock (std::time::Instant; the ticks of this case are nanoseconds
+    /// after a base instant) instead of the harness's microsecond virtual clock
+    pub std: bool,
 }
 
 pub type Snap = Snapshot<VInstant, VDuration>;
@@ -84,12 +87,109 @@ fn tape_tokens(t: &[(u64, u64)], out: &mut Vec<u64>) {
 
 pub const STEP_BUDGET: u64 = 4000;
 
+/// How a case's integer ticks become instants of a clock, and how that clock's instants and durations
+/// are rendered back as ticks (the canonical output is clock-neutral: all monitors and printers work on
+/// the VInstant/VDuration rendering).
+pub trait HClock {
+    type I: maybenot::time::Instant + Copy;
+    fn inst(&self, t: u64) -> Self::I;
+    fn iticks(&self, i: Self::I) -> u64;
+    fn dticks(&self, d: <Self::I as maybenot::time::Instant>::Duration) -> u64;
+}
+
+pub struct VirtualClock;
+impl HClock for VirtualClock {
+    type I = VInstant;
+    fn inst(&self, t: u64) -> VInstant {
+        VInstant(t)
+    }
+    fn iticks(&self, i: VInstant) -> u64 {
+        i.0
+    }
+    fn dticks(&self, d: VDuration) -> u64 {
+        d.0
+    }
+}
+
+/// std::time: ticks are nanoseconds after `base`
+pub struct StdClock {
+    pub base: std::time::Instant,
+}
+impl HClock for StdClock {
+    type I = std::time::Instant;
+    fn inst(&self, t: u64) -> std::time::Instant {
+        self.base + std::time::Duration::from_nanos(t)
+    }
+    fn iticks(&self, i: std::time::Instant) -> u64 {
+        i.saturating_duration_since(self.base).as_nanos().min(u64::MAX as u128) as u64
+    }
+    fn dticks(&self, d: std::time::Duration) -> u64 {
+        d.as_nanos().min(u64::MAX as u128) as u64
+    }
+}
+
+fn conv_snap<K: HClock>(k: &K, s: &Snapshot<K::I, <K::I as maybenot::time::Instant>::Duration>) -> Snap {
+    Snapshot {
+        current_time: VInstant(k.iticks(s.current_time)),
+        framework_start: VInstant(k.iticks(s.framework_start)),
+        machines: s
+            .machines
+            .iter()
+            .map(|m| verif::MachineSnapshot {
+                current_state: m.current_state,
+                state_limit: m.state_limit,
+                padding_sent: m.padding_sent,
+                normal_sent: m.normal_sent,
+                blocking_duration: VDuration(k.dticks(m.blocking_duration)),
+                allowed_blocked_microsec: VDuration(k.dticks(m.allowed_blocked_microsec)),
+                counter_a: m.counter_a,
+                counter_b: m.counter_b,
+                counter_zeroed_once: m.counter_zeroed_once,
+            })
+            .collect(),
+        normal_sent_packets: s.normal_sent_packets,
+        padding_sent_packets: s.padding_sent_packets,
+        blocking_duration: VDuration(k.dticks(s.blocking_duration)),
+        blocking_started: VInstant(k.iticks(s.blocking_started)),
+        blocking_active: s.blocking_active,
+        signal_pending: s.signal_pending,
+        actions_set: s.actions_set.clone(),
+    }
+}
+
+fn conv_action<K: HClock>(k: &K, a: &TriggerAction<K::I>) -> TriggerAction<VInstant> {
+    match a {
+        TriggerAction::Cancel { machine, timer } => TriggerAction::Cancel { machine: *machine, timer: *timer },
+        TriggerAction::SendPadding { timeout, bypass, replace, machine } => {
+            TriggerAction::SendPadding { timeout: VDuration(k.dticks(*timeout)), bypass: *bypass, replace: *replace, machine: *machine }
+        }
+        TriggerAction::BlockOutgoing { timeout, duration, bypass, replace, machine } => TriggerAction::BlockOutgoing {
+            timeout: VDuration(k.dticks(*timeout)),
+            duration: VDuration(k.dticks(*duration)),
+            bypass: *bypass,
+            replace: *replace,
+            machine: *machine,
+        },
+        TriggerAction::UpdateTimer { duration, replace, machine } => {
+            TriggerAction::UpdateTimer { duration: VDuration(k.dticks(*duration)), replace: *replace, machine: *machine }
+        }
+    }
+}
+
 pub fn run_case(c: &FwCase) -> FwRun {
+    if c.std {
+        run_case_on(c, &StdClock { base: std::time::Instant::now() + std::time::Duration::from_secs(3600) })
+    } else {
+        run_case_on(c, &VirtualClock)
+    }
+}
+
+pub fn run_case_on<K: HClock>(c: &FwCase, k: &K) -> FwRun {
     let mut run = FwRun::default();
     let rng = ScriptRng::new(c.script.clone(), c.seed);
     verif::arm(STEP_BUDGET);
     let fw = catch_unwind(AssertUnwindSafe(|| {
-        Framework::new(&c.machines[..], c.fpad, c.fblk, VInstant(c.t0), rng)
+        Framework::new(&c.machines[..], c.fpad, c.fblk, k.inst(c.t0), rng)
     }));
     let mut fw = match fw {
         Err(e) => {
@@ -111,7 +211,7 @@ pub fn run_case(c: &FwCase) -> FwRun {
     };
     let (t, _, _) = verif::take();
     tape_tokens(&t, &mut run.tape);
-    let snap = fw.verif_snapshot();
+    let snap = conv_snap(k, &fw.verif_snapshot());
     let mut line = vec![0];
     out_state(&snap, 0, run.tape.len() as u64, &mut line);
     run.lines.push(line);
@@ -120,7 +220,7 @@ pub fn run_case(c: &FwCase) -> FwRun {
     for (time, evs) in &c.calls {
         let r = catch_unwind(AssertUnwindSafe(|| {
             let acts: Vec<TriggerAction<VInstant>> =
-                fw.trigger_events(evs, VInstant(*time)).cloned().collect();
+                fw.trigger_events(evs, k.inst(*time)).map(|a| conv_action(k, a)).collect();
             acts
         }));
         let (t, log, steps) = verif::take();
@@ -133,7 +233,7 @@ pub fn run_case(c: &FwCase) -> FwRun {
                 break;
             }
             Ok(acts) => {
-                let snap = fw.verif_snapshot();
+                let snap = conv_snap(k, &fw.verif_snapshot());
                 let mut line = vec![0];
                 out_state(&snap, steps, run.tape.len() as u64, &mut line);
                 line.push(acts.len() as u64);
@@ -161,7 +261,8 @@ pub fn run_case(c: &FwCase) -> FwRun {
 
 /// the wire encoding of a case, with the tape observed on the implementation
 pub fn enc_case(c: &FwCase, tape: &[u64]) -> Toks {
-    let mut o: Toks = vec![1];
+    // tag 1: the virtual clock; tag 12: the std clock (nanosecond ticks)
+    let mut o: Toks = vec![if c.std { 12 } else { 1 }];
     o.push(c.fpad.to_bits());
     o.push(c.fblk.to_bits());
     o.push(c.machines.len() as u64);
